@@ -5,5 +5,5 @@ export SEED_LANE=$lane
 while [ $# -gt 0 ]; do
   p=$1; n=$2; shift 2
   echo "=== $p seed $n (lane $lane)"
-  python3 /verif/tools/seedcheck.py /tmp/seed/$p/_seeds/$n $p $p-t$n 2>&1 | grep -v conda | tail -8
+  python3 /verif/tools/seedcheck.py /tmp/seed/$p/_seeds/$n $p $p-${SEED_TAG:-t}$n 2>&1 | grep -v conda | tail -8
 done
